@@ -328,26 +328,24 @@ func (e *ExecutorV3) RunTx(context state.Interface, rawTx []byte, rewardPool *bi
 		} else if deliverState, ok := context.(*state.State); ok {
 			if tx.Type == TypeCreateCoin || tx.Type == TypeCreateToken {
 				dataCreateSymbol := tx.decodedData.(symbolCreator)
+				// The transaction has already been executed (state changed, nonce bumped), so nothing here may turn
+				// it into a rejection any more: when there is no positive ticker fee to burn (zero ticker price or
+				// zero gas price, or its conversion to the base coin is not possible) the burn is skipped.
 				symbolPrice := tx.MulGasPrice(dataCreateSymbol.PayForSymbol(commissions))
-				if !commissions.Coin.IsBaseCoin() {
+				if symbolPrice.Sign() == 1 && !commissions.Coin.IsBaseCoin() {
 					var resp *Response
 					resp, symbolPrice, _ = CheckSwap(checkState.Swap().GetSwapper(commissions.Coin, types.GetBaseCoinID()), checkState.Coins().GetCoin(commissions.Coin), checkState.Coins().GetCoin(0), symbolPrice, big.NewInt(0), false)
 					if resp != nil {
-						return *resp
+						symbolPrice = nil
 					}
 				}
-				if symbolPrice == nil || symbolPrice.Sign() != 1 {
-					return Response{
-						Code: code.CommissionCoinNotSufficient,
-						Log:  fmt.Sprint("Not possible to pay commission"),
-						Info: EncodeError(code.NewCommissionCoinNotSufficient("", "")),
-					}
+				if symbolPrice != nil && symbolPrice.Sign() == 1 {
+					rewardPool.Sub(rewardPool, symbolPrice)
+					deliverState.Accounts.AddBalance([20]byte{}, 0, symbolPrice)
+					response.Tags = append(response.Tags,
+						abcTypes.EventAttribute{Key: []byte("tx.burned_for_symbol"), Value: []byte(symbolPrice.String())},
+					)
 				}
-				rewardPool.Sub(rewardPool, symbolPrice)
-				deliverState.Accounts.AddBalance([20]byte{}, 0, symbolPrice)
-				response.Tags = append(response.Tags,
-					abcTypes.EventAttribute{Key: []byte("tx.burned_for_symbol"), Value: []byte(symbolPrice.String())},
-				)
 			}
 		}
 	}
